@@ -1120,7 +1120,7 @@ var subShared = runlog.Register(&runlog.Sub[Case]{
 	Run:  runCase,
 })
 
-func TestSharedPrefill(t *testing.T) { subShared.Check(t, 60000, 600000) }
+func TestSharedPrefill(t *testing.T) { subShared.Check(t, 60000, 300000) }
 
 // ---------------------------------------------------------------------------
 // The alias grid: every kind of shareable object x every relation of its two
